@@ -146,6 +146,23 @@ CHECKS = {
               "is built)."),
         technique="TLA+/TLC exhaustive + simulation-generated IR programs replayed off-circuit and in-circuit, validated by a trace spec",
     ),
+    "C19": dict(
+        category="model_checking",
+        text=("Regex.tla gives the expressions of parsing::regex their meaning by Brzozowski derivatives over marked "
+              "letters (associative-commutative-idempotent normal forms keep the derivative automaton finite) and explores "
+              "the product of that derivative automaton with the COMPILED automaton to_automaton() returns, given as "
+              "data: in every reachable product state the compiled state is final iff the derivative is nullable, which "
+              "decides equality of the two marked languages for ALL words, one TLC run per expression. Expressions come "
+              "from the check's seed over all combinators (byte classes, complemented classes, words, concatenation, "
+              "union, intersection, complement, difference, star/plus, optional, exact and bounded repetition, separated "
+              "lists, delimiters, markers) plus systematic compositions of iteration operators around multi-letter "
+              "loops; they are built in the real library in sugared form and given to TLC desugared."),
+        design_ref="DESIGN.md 4/C19",
+        note=("Language half only: the in-circuit parser, the shipped serialized automata and base64 are not covered; "
+              "markers only outside intersections/complements with one fixed marker per byte; unmentioned bytes "
+              "represented by one byte; undecided (timeout) expressions are not counted as passed."),
+        technique="TLA+/TLC product of derivative automaton (spec) with the extracted compiled automaton, per expression",
+    ),
 }
 
 NOT_YET = {
